@@ -52,10 +52,12 @@ decoder("multidecoder.decoders.hex.find_hex", ["C01", "C03", "C13"],
         each={**T("", "decoded.hexadecimal"), "value-is-unhexlify-of-the-text-covered": "node.value == unhexlify(data[node.start : node.end])"})
 
 # ---- javascript unescape (C14)
-decoder("multidecoder.decoders.javascript.find_unescape", ["C01", "C03", "C14"], each={**T("string", "function.unescape")})
+decoder("multidecoder.decoders.javascript.find_unescape", ["C01", "C03", "C14"],
+        each={**T("string", "function.unescape"), "value-is-the-percent-decoded-argument": "node.value == unquote(data[node.start + 10 : node.end - 2])"})
 
 # ---- utf-16 (C14)
-decoder("multidecoder.decoders.codec.find_utf16", ["C01", "C03", "C14"], each={**T("", "codec.uft-16")})
+decoder("multidecoder.decoders.codec.find_utf16", ["C01", "C03", "C14"],
+        each={**T("", "codec.uft-16"), "value-is-utf8-of-the-utf16-text-covered": "node.value == utf8(utf16(data[node.start : node.end]))"})
 
 # ---- chr (C14)
 decoder("multidecoder.decoders.chr.find_chr", ["C01", "C03", "C14"], collector="out", each={**T("string", "function.chr")})
@@ -82,8 +84,11 @@ decoder("multidecoder.decoders.replace.find_vba_replace", ["C01", "C03", "C15"],
 decoder("multidecoder.decoders.replace.find_js_regex_replace", ["C01", "C03", "C15"], each={**T("javascript.string", "replace")})
 
 # ---- base64 call forms (C13)
-decoder("multidecoder.decoders.base64.find_atob", ["C01", "C03", "C13"], collector="out", each={**T("javascript.string", "encoding.base64")})
-decoder("multidecoder.decoders.base64.find_Base64Decode", ["C01", "C03", "C13"], collector="out", each={**T("vba.string", "encoding.base64")})
+# the node covers the whole call and its value is the decoding of exactly the quoted argument
+decoder("multidecoder.decoders.base64.find_atob", ["C01", "C03", "C13"], collector="out",
+        each={**T("javascript.string", "encoding.base64"), "value-is-b64decode-of-the-argument": "node.value == b64decode(data[node.start + 6 : node.end - 2])"})
+decoder("multidecoder.decoders.base64.find_Base64Decode", ["C01", "C03", "C13"], collector="out",
+        each={**T("vba.string", "encoding.base64"), "value-is-b64decode-of-the-argument": "node.value == b64decode(data[node.start + 14 : node.end - 2])"})
 decoder("multidecoder.decoders.base64.find_base64", ["C01", "C03", "C13"], collector="b64_matches", each={**T("", "encoding.base64")})
 
 # ---- xor helper (C13): the child is the parent's bytes XORed with the stated single-byte key
